@@ -294,6 +294,11 @@ def stepLine (s : Sys) (toks : List String) : Sys × List String :=
     match parseNat i with
     | some i => s.dropOp i
     | none => (s, ["bad-op"])
+  | ["life", "pdrop", i] =>
+    -- the future is dropped while its thread unwinds from a panic: `Drop` does the same
+    match parseNat i with
+    | some i => s.dropOp i
+    | none => (s, ["bad-op"])
   | ["life", "kpost", i, r, f] =>
     match parseNat i, parseInt r, parseNat f with
     | some i, some r, some f => s.kpost i r f
